@@ -164,11 +164,13 @@ func (m *Machine) hbMem(key interface{}, write, atomic bool) {
 			}
 			return s
 		}
+		ends := []string{kind(a) + " in " + a.fn, kind(b) + " in " + b.fn}
+		sort.Strings(ends)
 		fns := []string{a.fn, b.fn}
 		sort.Strings(fns)
 		m.raceSites = append(m.raceSites, a.pos, b.pos)
 		mod := m.curModel()
-		m.violate("race", fmt.Sprintf("conflicting accesses not ordered by synchronisation: %s in %s / %s in %s", kind(a), fns[0], kind(b), fns[1]), mod)
+		m.violate("race", "conflicting accesses not ordered by synchronisation: "+ends[0]+" / "+ends[1], mod)
 		v := &m.viol[len(m.viol)-1]
 		v.Func = fns[0] + " / " + fns[1]
 		v.Sched = append(v.Sched, "RACE: "+kind(a)+" at "+posStr(m.prog.Fset, a.pos)+" ("+a.fn+")", "RACE: "+kind(b)+" at "+posStr(m.prog.Fset, b.pos)+" ("+b.fn+")")
